@@ -119,6 +119,8 @@ pub fn run(tier: &str, seed: u64, dir: &str) {
             }
         }
     }
+    // coverage audit: colour forms / entry points of the same conversions (`c06_more.rs`).  After the scalar stream, so that it is unchanged.
+    crate::c06_more::run_more(&mut out, &mut rng, tier);
     // ---- exhaustive scans (thorough): every f32 pattern for f32 -> u8/u16, every u32 for integer sources
     let mut extra = String::new();
     if tier == "thorough" {
